@@ -498,6 +498,17 @@ def scope_copy_out(ctx, rule):
               'scope, or the scope list held by a reference, in place' % [u(r.value) for r in rets], pm.loc(), instance=pname)
 
 
+def lazy_init_stmt(st):
+  """`if not hasattr(self, '_active…'): self._active… = V` -> V (the per-thread lazy initialisation written in line), else None."""
+  if isinstance(st, ast.If) and not st.orelse and len(st.body) == 1 and isinstance(st.body[0], ast.Assign) \
+      and isinstance(st.test, ast.UnaryOp) and isinstance(st.test.op, ast.Not) and isinstance(st.test.operand, ast.Call) \
+      and u(st.test.operand.func) == 'hasattr' and len(st.test.operand.args) == 2 and u(st.test.operand.args[0]) == 'self' \
+      and isinstance(st.test.operand.args[1], ast.Constant) and str(st.test.operand.args[1].value).startswith('_active') \
+      and len(st.body[0].targets) == 1 and u(st.body[0].targets[0]) == 'self.' + st.test.operand.args[1].value:
+    return st.body[0].value
+  return None
+
+
 def stack_discipline(ctx, rule):
   c = ctx.cls('config._ScopeManager')
   ccon = '%s::%s' % (c.module.relpath, c.name)
@@ -512,6 +523,8 @@ def stack_discipline(ctx, rule):
       if isinstance(n, (ast.Delete,)):
         out.append('del ' + ','.join(u(t) for t in n.targets))
       if isinstance(n, ast.Assign) and any('_active' in u(t) for t in n.targets):
+        if lazy_init_stmt(getattr(n, 'parent', None)) is not None:
+          continue      # the lazy per-thread initialisation, written in line (checked by the thread rule)
         out.append(u(n))
     return out
   me, mx = muts(en), muts(ex)
